@@ -173,6 +173,7 @@ def plan(tier, seed):
     # every fourth shard runs with every log call evaluating its lazy message (debug logging): formatters are code too
     out = [{'shard': i, 'inputs': 1500 if tier == 'quick' else 30000, 'loud': i % 4 == 3} for i in range(n)]
     out += [{'shard': 900 + i, 'daemon': True, 'part': i, 'inputs': 150 if tier == 'quick' else 1500} for i in range(4 if tier == 'quick' else 8)]
+    out += [{'shard': 950, 'daemon': True, 'helper_gone': True, 'part': 0}]
     return out
 
 
@@ -233,7 +234,73 @@ def run_one(res, sensor, mtype, body, nb, neg, cls, sk, must_decode, wit_extra=N
     return outcome, steps, depth
 
 
+def run_helper_gone(desc):
+    """the helper process of the REAL daemon exits (respawn off) while a session is up; the peer then sends valid messages of the
+    kinds the helper had asked for.  The speaker must not be wedged by them: it keeps sending KEEPALIVEs (never silent for a
+    hold time while the peer keeps the session alive) or it ends the session - an open connection gone silent is the failure"""
+    import time
+
+    from vlib import daemon
+
+    res = Result()
+    H = 3
+    text = 'process quitter {\n    run @PY@ @DIR@/quitter.py;\n    encoder json;\n}\n' + exa.neighbor_text(hold=H, families=[(1, 1), (2, 1)], extra='    api { processes [ quitter ]; neighbor-changes; receive { parsed; update; keepalive; refresh; } }')
+    d = daemon.Daemon(text, files={'quitter.py': 'import sys\nfor l in sys.stdin:\n    if \'"up"\' in l: break\n'}, env={'exabgp_log_level': 'ERROR', 'exabgp_api_respawn': 'false'})
+    peer = None
+    try:
+        d.start()
+        peer = d.accept()
+        peer.establish(65001, hold=H)
+        time.sleep(1.0)
+        attrs = rw.enc_attr(0x40, 1, b'\0') + rw.enc_attr(0x40, 2, bytes([2, 1]) + struct.pack('!L', 65001)) + rw.enc_attr(0x40, 3, bytes([192, 0, 2, 1]))
+        peer.send(2, rw.enc_update_body(b'', attrs, bytes([24, 10, 1, 1])))
+        peer.send(5, struct.pack('!HBB', 1, 0, 1))
+        t0 = time.monotonic()
+        nxt = t0 + H / 3
+        last_rx = t0
+        ended = None
+        worst = 0.0
+        while time.monotonic() - t0 < 3 * H:
+            if time.monotonic() >= nxt:
+                try:
+                    peer.send(4)
+                except OSError:
+                    ended = ('closed',)
+                    break
+                nxt += H / 3
+            t, b = peer.read_message(0.1)
+            if t in (2, 4):
+                worst = max(worst, time.monotonic() - last_rx)
+                last_rx = time.monotonic()
+            elif t == 3:
+                ended = ('notification', b[0], b[1])
+                break
+            elif t is None:
+                ended = ('closed',)
+                break
+        worst = max(worst, time.monotonic() - last_rx) if ended is None else worst
+        wit = {'hold': H, 'ended': ended, 'longest_silence': round(worst, 2), 'level': 'daemon', 'log': d.tail(1500)}
+        if ended is None and worst >= 2 * H:
+            res.violation('C03/daemon:wedged-after-helper-exit', f'the helper had exited; after a valid UPDATE the daemon sent nothing for {worst:.1f} s (H={H}) and left the connection open', wit, 'daemon:helper-gone')
+        elif not d.alive():
+            res.violation('C03/daemon:process-exits:helper-gone', 'the daemon exited', wit, 'daemon:helper-gone')
+        else:
+            res.ok('daemon:helper-gone', ('daemon', 'helper-gone', ended[0] if ended else 'continues'))
+    except daemon.Inconclusive as e:
+        daemon.skipped(res, str(e))
+    finally:
+        try:
+            if peer is not None:
+                peer.close()
+        except Exception:  # noqa
+            pass
+        d.stop()
+    return res
+
+
 def run_daemon(desc):
+    if desc.get('helper_gone'):
+        return run_helper_gone(desc)
     """hostile messages sent to the REAL daemon over TCP.  What is observable from outside: the process stays alive, it says
     nothing about an unhandled exception on its log, it never answers with the NOTIFICATION Protocol.read_message builds from
     an exception which escaped a decoder (1/0 'can not decode ...'), it comes back for a new session after each reset, and every
@@ -575,7 +642,7 @@ def run_shard(desc):
 
 
 def finish(merged, tier, seed):
-    need = ['daemon:structured', 'daemon:mutated-qa', 'daemon:helper-lines', 'update:valid', 'open:valid', 'notification:valid', 'refresh:valid', 'update:mutated', 'update:random', 'update:structured', 'update:cut-attribute', 'update:qa-seed'] + [f'update:unusual:{k}' for k in UNUSUAL]
+    need = ['daemon:structured', 'daemon:mutated-qa', 'daemon:helper-lines', 'daemon:helper-gone', 'update:valid', 'open:valid', 'notification:valid', 'refresh:valid', 'update:mutated', 'update:random', 'update:structured', 'update:cut-attribute', 'update:qa-seed'] + [f'update:unusual:{k}' for k in UNUSUAL]
     missing = [c for c in need if not merged['classes'].get(c)]
     if missing:
         merged['inconclusive'].append('classes never judged: ' + ','.join(missing))
